@@ -182,6 +182,60 @@ Proof.
     + rewrite !G in * by lia. apply (wf_own _ W a b); auto; lia.
 Qed.
 
+(* ---------------------------------------------------------------- (2b) a clone: whole buffer and sequence fields copied *)
+Lemma wf_add_clone st i lv : wf st -> i < length (seqs st) ->
+  let s := getseq st i in
+  wf (mkSt (heap st ++ [getbuf (heap st) (sbuf s)])
+           (seqs st ++ [mkSeq (length (heap st)) (offs s) (lens s) (is_view s) (bufbytes s) (scache s) lv])).
+Proof.
+  intros W Hi s.
+  set (x := getbuf (heap st) (sbuf s)).
+  set (s' := mkSeq (length (heap st)) (offs s) (lens s) (is_view s) (bufbytes s) (scache s) lv).
+  set (st' := mkSt (heap st ++ [x]) (seqs st ++ [s'])).
+  destruct (wf_seq _ W i Hi) as (Sb & Sl & Sc). fold s in Sb, Sl, Sc.
+  assert (G : forall k, k < length (seqs st) -> getseq st' k = getseq st k).
+  { intros. unfold getseq, st'; simpl. apply nth_app_old; auto. }
+  assert (GN : getseq st' (length (seqs st)) = s').
+  { unfold getseq, st'; simpl. apply nth_app_new. }
+  assert (LN : length (seqs st') = S (length (seqs st))).
+  { unfold st'; simpl. rewrite app_length; simpl; lia. }
+  assert (LH : length (heap st') = S (length (heap st))).
+  { unfold st'; simpl. rewrite app_length; simpl; lia. }
+  assert (R : forall b, b < length (heap st) -> rows_of st' b = rows_of st b).
+  { intros. unfold rows_of, st'; simpl. rewrite getbuf_app_old; auto. }
+  assert (RN : rows_of st' (length (heap st)) = rows_of st (sbuf s)).
+  { unfold rows_of, st'; simpl. rewrite getbuf_app_new; auto. }
+  assert (OLD : forall k, k < length (seqs st) -> sbuf (getseq st k) < length (heap st)).
+  { intros k Hk. apply (wf_seq _ W k Hk). }
+  split.
+  - intros b Hb'. rewrite LH in Hb'. destruct (Nat.eq_dec b (length (heap st))) as [->|Hne].
+    + rewrite RN. unfold st'; simpl. rewrite getbuf_app_new. apply (wf_heap _ W _ Sb).
+    + rewrite R by lia. unfold st'; simpl. rewrite getbuf_app_old by lia. apply (wf_heap _ W). lia.
+  - intros b Hb'. rewrite LH in Hb'. destruct (Nat.eq_dec b (length (heap st))) as [->|Hne].
+    + destruct (wf_buf _ W _ Sb) as (os & ls & C1 & C2 & C3).
+      exists os, ls. rewrite RN. split; [auto|split; [auto|]].
+      intros k Hk Hs. rewrite LN in Hk. destruct (Nat.eq_dec k (length (seqs st))) as [->|Hnk].
+      * rewrite GN. unfold pairs, s'; simpl. apply (C3 i Hi eq_refl).
+      * rewrite G in Hs by lia. specialize (OLD k ltac:(lia)). lia.
+    + destruct (wf_buf _ W b ltac:(lia)) as (cos & cls & C1 & C2 & C3).
+      exists cos, cls. rewrite R by lia. split; [auto|split; [auto|]].
+      intros k Hk Hs. rewrite LN in Hk. destruct (Nat.eq_dec k (length (seqs st))) as [->|Hnk].
+      * rewrite GN in Hs. simpl in Hs. lia.
+      * rewrite G in * by lia. apply C3; auto. lia.
+  - intros k Hk. rewrite LN in Hk. destruct (Nat.eq_dec k (length (seqs st))) as [->|Hnk].
+    + rewrite GN. unfold seq_ok, s'. cbn [sbuf offs lens scache]. rewrite LH, RN.
+      split; [lia|split; [auto|]].
+      destruct (scache s) as [c|]; auto.
+    + rewrite G by lia. destruct (wf_seq _ W k ltac:(lia)) as (S1 & S2 & S3).
+      unfold seq_ok. rewrite LH. repeat split; auto. rewrite R by auto. exact S3.
+  - intros a b Ha Hb' Hab Hs. rewrite LN in Ha, Hb'.
+    destruct (Nat.eq_dec a (length (seqs st))) as [->|Hna];
+      destruct (Nat.eq_dec b (length (seqs st))) as [->|Hnb]; try lia.
+    + rewrite GN, G in Hs by lia. simpl in Hs. specialize (OLD b ltac:(lia)). lia.
+    + rewrite GN, G in Hs by lia. simpl in Hs. specialize (OLD a ltac:(lia)). lia.
+    + rewrite !G in * by lia. apply (wf_own _ W a b); auto; lia.
+Qed.
+
 (* ---------------------------------------------------------------- (3) sequence i moves to a fresh buffer *)
 Lemma wf_move_fresh st i x s' : wf st -> i < length (seqs st) ->
   sbuf s' = length (heap st) -> is_view s' = false ->
